@@ -73,7 +73,7 @@ package header
 
 //@ iface Store.Height(s)
 //@   modifies ghost:storeLow
-//@   ensures result <= storeHeightBound && storeLow >= old(storeLow) && storeLow >= result
+//@   ensures result <= storeHeightBound && storeLow >= old(storeLow) && storeLow >= result && result >= old(storeLow)
 
 //@ iface Store.Tail(s, ctx)
 //@   ensures result1 == nil ==> !result0.IsZero() && result0.Height() == storeTailH && 1 <= storeTailH && verified(result0)
